@@ -65,9 +65,11 @@ def check_order(out, x, p, sub, entry, window):
     return int(fitted.sum())
 
 
-def run_entry(entry, x, i, j):
+def run_entry(entry, x, i, j, ND=None):
     st = _st()
     N, n = x.shape
+    if ND is None:
+        ND = globals()["ND"]
     if entry == "yxt_i16":
         return np.asarray(st.gammastd_yxt(x.astype("int16").reshape(N, 1, n), ND, i, j)).reshape(N, n)
     if entry == "yxt_f64":
@@ -129,6 +131,39 @@ def _words_task(task, p):
                                 f"(negative values must not count as observations)")
     if n == 4 and (i, j) == (0, 3):
         p.sample(sub, {"word": x[1234].tolist(), "window": [i, j]})
+
+
+def _marker_task(task, p):
+    """The marker chosen for nodata is only echoed: the same words (over nodata, a negative value and positive
+    observations) with their missing cells written as -9999, as 0, as 7 and as 255 - a value that sorts among / above
+    the data - give the same indices, nodata cells carrying the marker."""
+    n, i, j = task
+    sub = "marker_independence"
+    pos = [1, 2, 9, 30]
+    idx = sse.word_indices(2 + len(pos), n)
+    base = sse.render(idx, [ND, NEG] + pos).astype(np.float64)
+    for entry in ("yxt_i16", "yxt_f64", "grp_i16", "grp_f32"):
+        try:
+            ref = run_entry(entry, base, i, j)
+        except Exception:
+            continue        # reported by the ordering sub-check
+        for marker in (0, 7, 255):
+            x = np.where(base == ND, marker, base)
+            try:
+                out = run_entry(entry, x, i, j, ND=marker)
+            except Exception as e:
+                p.violation(sub, {"entry": entry, "marker": marker, "window": [i, j]}, {"kind": "marker", "n": n, "window": [i, j]},
+                            f"{entry} with nodata={marker} raised {type(e).__name__}: {e} (the same words with nodata=-9999 are fine)")
+                continue
+            exp = np.where(ref == ND, marker, ref)
+            bad = (out != exp).any(axis=1)
+            p.count(sub, evaluations=x.shape[0], nontrivial=int((idx == 0).any(axis=1).sum()))
+            for r in np.nonzero(bad)[0][:3]:
+                p.violation(sub, {"entry": entry, "marker": marker, "x": x[r].tolist(), "window": [i, j]}, {"kind": "marker", "n": n, "window": [i, j]},
+                            f"{entry}: SPI of {x[r].tolist()} with nodata={marker}, window [{i},{j}) -> {out[r].tolist()}; the same series with its missing cells "
+                            f"written as -9999 gives {ref[r].tolist()} (only the marker may differ)")
+    if n == 4 and (i, j) == (0, 4):
+        p.sample(sub, {"markers": [-9999, 0, 7, 255], "alphabet": ["ND", NEG] + pos})
 
 
 # ------------------------------------------------------------------ extremes ladders
@@ -378,6 +413,7 @@ def run(ctx):
     maxn = 6 if ctx.thorough() else 5
     tasks = [(n, i, j, letters) for n in range(maxn, 2, -1) for i in range(n) for j in range(i + 2, n + 1)]
     ctx.pmap(_words_task, tasks)
+    ctx.pmap(_marker_task, [(n, i, j) for n in (5, 4, 3) for i in range(n) for j in range(i + 2, n + 1)])
     ctx.note("alphabet", ["ND", NEG] + letters)
     ctx.note("max_len", maxn)
     ladders(ctx)
@@ -403,5 +439,7 @@ def replay(sub, case, p):
         fine_ladders(p)
     elif k == "zero_share":
         zero_share(p)
+    elif k == "marker":
+        _marker_task((case["n"], case["window"][0], case["window"][1]), p)
     else:
         placement(p)
